@@ -749,7 +749,10 @@ impl World {
                 let validated = incoming.remote_address_validated();
                 let odcid = incoming.orig_dst_cid();
                 let pair_idx = if odcid.len() >= 2 && odcid[0] == 0xD0 { odcid[1] as usize } else { 255 };
-                self.trace.push(vec![2, t, epi as i128, sid, size, 2, pair_idx as i128, validated as i128, origin, kind, hflags]);
+                // index this attempt will get if accepted (later incarnations: pair + 1000 * k)
+                let prev_inc = self.accepted_pairs.iter().filter(|p| **p == pair_idx).count();
+                let new_idx = pair_idx + 1000 * prev_inc;
+                self.trace.push(vec![2, t, epi as i128, sid, size, 2, new_idx as i128, validated as i128, origin, kind, hflags]);
                 if self.p.get(k::RETRY, 0) != 0 && !validated && incoming.may_retry() {
                     let tr = self.eps[epi].ep.retry(incoming, &mut buf).unwrap();
                     let did_ = self.addr_id_of(tr.destination);
@@ -1516,7 +1519,7 @@ fn quinn_proto_token_key(seed: u64) -> Arc<dyn quinn_proto::crypto::HandshakeTok
 
 /// Cleartext classification of a datagram: bit0 long header present, bit1 contains an Initial,
 /// bit2 contains a Handshake packet, bit3 contains a 0-RTT packet, bit4 contains a Retry,
-/// bit5 first packet is short-header, bit6 version-negotiation. Walks coalesced long-header
+/// bit5 first packet is short-header, bit6 version-negotiation, bit7 supported version. Walks coalesced long-header
 /// packets using their Length fields (RFC 9000 §17.2); stops at anything malformed.
 fn header_flags(d: &[u8]) -> i128 {
     let mut flags = 0;
@@ -1537,6 +1540,12 @@ fn header_flags(d: &[u8]) -> i128 {
         let version = u32::from_be_bytes([d[i + 1], d[i + 2], d[i + 3], d[i + 4]]);
         if version == 0 {
             flags |= 64;
+            break;
+        }
+        if quinn_proto::DEFAULT_SUPPORTED_VERSIONS.contains(&version) {
+            flags |= 128;
+        } else {
+            // unsupported version: nothing after the version field can be interpreted
             break;
         }
         let mut j = i + 5;
